@@ -10,7 +10,8 @@ PROP = "C03"
 MOD = __name__
 
 RULE = ("every input of C01's spaces (exhaustive token sequences, generated scripts, mutants, layout variants) that "
-        "Parser.parse accepts, minus inputs filling one optional tag slot twice; oracle: harness-side walk of Parser.result "
+        "Parser.parse accepts, minus inputs filling one optional tag slot twice, plus valid scripts of 64 KiB ... 4 MiB (sizes on and around "
+        "powers of two, padded with comments or blank lines) through parse and parse_file; oracle: harness-side walk of Parser.result "
         "== tree of an independent RFC 5228 section 8.2 generic-grammar parser (names, flat raw argument sequence, tests, "
         "children, order). Non-trivial = accepted with >= 2 commands or >= 1 argument; distinct by source text.")
 
@@ -162,7 +163,63 @@ def judge(text, meta, col):
     _one(text, meta["src"], col)
 
 
+BIG_SIZES = [65536, 65537, (1 << 20) - 1, 1 << 20, (1 << 20) + 1, (1 << 20) + 4099, (2 << 20) + 3, (4 << 20) + 5]
+
+
+def big_script(size, variant):
+    """A valid script of exactly `size` bytes: commands separated by long hash
+    comments (variant 0), bracket comments (1) or blank lines (2), so that any
+    byte offset lies in a place where cutting the text would still leave a
+    valid script; the last command is different from all others."""
+    cmds = [b"keep;", b"stop;", b"discard;", b'redirect "a@example.org";', b"if true { keep; }"]
+    last = b'redirect "the-last-command@example.org";\n'
+    out = []
+    n = 0
+    i = 0
+    while True:
+        c = cmds[i % len(cmds)] + b"\n"
+        if variant == 0:
+            pad = b"# " + b"p" * 997 + b"\n"
+        elif variant == 1:
+            pad = b"/* " + b"q" * 994 + b" */\n"
+        else:
+            pad = b" " * 499 + b"\n" + b"\t" * 499 + b"\n"
+        block = c + pad * 7
+        if n + len(block) + len(last) + 1200 > size:
+            break
+        out.append(block)
+        n += len(block)
+        i += 1
+    rest = size - n - len(last)
+    filler = b"# " + b"f" * (rest - 3) + b"\n" if rest >= 3 else b" " * rest
+    return b"".join(out) + filler + last
+
+
+def big_worker(arg):
+    size, variant = arg
+    col = core.Collector()
+    text = big_script(size, variant)
+    if len(text) != size:
+        raise core.HarnessError("big_script produced %d bytes instead of %d" % (len(text), size))
+    for via_file in (False, True):
+        status, bucket, detail, exp = compare(text, via_file=via_file)
+        col.case(key=b"big-%d-%d-%d" % (size, variant, via_file), nontrivial=True, classes=["big-input", "via:parse_file" if via_file else "via:parse"],
+                 sample={"big_script_bytes": size, "separator": ["hash comments", "bracket comments", "blank lines"][variant], "via_file": via_file}
+                 if size == 1 << 20 else None)
+        case = {"big": [size, variant], "file": via_file}
+        if status == "rejected":
+            col.fail("big-input|valid-script-rejected" + ("|parse_file" if via_file else ""), case, {"bytes": size})
+        elif status == "fail":
+            detail = dict(detail)
+            detail["text"] = "(%d bytes, see big_script(%d, %d))" % (size, size, variant)
+            col.fail(("parse_file|" if via_file else "") + "big-input|" + bucket.split("|at=")[0], case, detail)
+    return col
+
+
 def replay(case):
+    if case.get("big"):
+        col = big_worker(tuple(case["big"]))
+        return [(b, f["detail"]) for b, f in col.fails.items()]
     if case.get("file"):
         status, bucket, detail, _ = compare(case["text"], via_file=True)
         if status == "rejected" and compare(case["text"])[0] != "rejected":
@@ -173,7 +230,7 @@ def replay(case):
 
 
 def shrink(case, bucket, budget):
-    if case.get("file"):
+    if case.get("file") or case.get("big"):
         return None
     toks = [t.text + (b"\n" if t.kind == "mls" else b"") for t in lex(case["text"]).tokens]
 
@@ -187,7 +244,8 @@ def shrink(case, bucket, budget):
 
 def main(tier, seed, t0):
     col = pspace.run(MOD, tier, seed)
-    need = ["via:parse_file", "accepted", "has-block", "list-arg", "tag", "src:gen", "src:guided", "src:mutant", "src:layout"]
+    col.merge(core.run_shards(big_worker, [(sz, v) for sz in BIG_SIZES for v in (0, 1, 2)]))
+    need = ["big-input", "via:parse_file", "accepted", "has-block", "list-arg", "tag", "src:gen", "src:guided", "src:mutant", "src:layout"]
     missing = [c for c in need if not col.classes.get(c)]
     if missing:
         raise core.HarnessError("generator classes empty: %s" % missing)
